@@ -202,7 +202,7 @@ Proof.
   - cbn [sb_step]. unfold call. destruct (ref_step (sb_buf s) (Read n)) as [b o] eqn:E. cbn. auto.
   - (* readline *)
     cbn [sb_step]. unfold sb_readline, call_data, call.
-    destruct lim as [[|n]|]; [discriminate| |]; simpl; auto.
+    destruct lim as [n|]; simpl; auto.
   - (* readlines *)
     cbn [sb_step ref_step].
     destruct (sb_readlines_spec _ s hint 0 [] (iter_fuel (sb_buf s))) as [s' [J1 [J2 J3]]].
